@@ -36,4 +36,8 @@ json.dump(res,open('%s/result-%s-%s.json'%(d,prop,tier),'w'),indent=1)
 print('%s\t%s\t%s\texit=%s\t%ss\t%s'%(d.split('/')[-1],prop,tier,rc,el,(cls[0] if cls else '')[:90]))
 PY
   git -C /repo worktree remove --force $wt; rm -rf /var/tmp/seeded/scr-$name-$$
+  # every change instruments a different tree: keep the build cache from filling the disk
+  if [ "$(du -sm ${GOCACHE:-$HOME/.cache/go-build} 2>/dev/null | cut -f1)" -gt 30000 ]; then
+    find ${GOCACHE:-$HOME/.cache/go-build} -type f -mmin +90 -delete 2>/dev/null
+  fi
 done
